@@ -360,7 +360,7 @@ func runStatic(rep *kf.Reporter, st *staticStats) (constructorsOK bool, harness 
 				rep.Report(sig("error-family", "Windows-typed instance returned a value of family "+wr.Fam), replay)
 			}
 
-			if lr.Kind != "ok" && wr.Kind != "ok" && !classCompatible(callName, lr.Kind, wr.Kind, lr.Fam, wr.Fam) {
+			if errClassReport && lr.Kind != "ok" && wr.Kind != "ok" && !classCompatible(callName, lr.Kind, wr.Kind, lr.Fam, wr.Fam) {
 				rep.Report(sig("error-class", "failure kinds are not counterparts in Errors.SetOSType / the call's OS branch"), replay)
 			}
 		}
@@ -368,3 +368,7 @@ func runStatic(rep *kf.Reporter, st *staticStats) (constructorsOK bool, harness 
 
 	return true, nil
 }
+
+// errClassReport enables the informational error-class comparison (not part
+// of the property: it only demands agreement on success or failure).
+var errClassReport = os.Getenv("VERIF_C17_ERRCLASS") != ""
